@@ -450,6 +450,7 @@ def shared_weights(ctx):
     from . import c10
     sub = type(ctx)(ctx.prop, ctx.facts)
     sub.guard("R10.1", "create", c10.r1, sub)
+    sub.guard("R10.2", "update", c10.r2, sub)      # .. and stay shared: every group is re-coupled after every step
     bad = [o for o in sub.obligations if o["status"] != "ok"]
     for o in bad:
         ctx.bad("R11.2", "shared-weights:" + o["instance"], o["key"].split("/", 3)[-1], o["where"], o["detail"])
